@@ -53,7 +53,7 @@ def _objects():
 
 
 def gen_cases(tier, seed):
-    reps = {"quick": 4, "thorough": 40}[tier]
+    reps = {"quick": 4, "thorough": 200}[tier]
     cases = []
     for fam, name in _objects():
         for i in range(reps):
